@@ -70,6 +70,12 @@ func reachableMod(p *core.Prog, entries []*ssa.Function, stop func(*ssa.Function
 		g.Instrs(func(i ssa.Instruction) {
 			if c := ssax.CallOf(i); c != nil {
 				visit(c.StaticCallee())
+				if c.IsInvoke() {
+					// interface call: every module type that implements the interface may be the receiver
+					for _, m := range moduleImplementations(p, c) {
+						visit(m)
+					}
+				}
 			}
 			if mc, ok := i.(*ssa.MakeClosure); ok {
 				visit(mc.Fn.(*ssa.Function))
@@ -359,4 +365,53 @@ func isSeqT(t types.Type) bool {
 func isIntT(t types.Type) bool {
 	b, ok := t.Underlying().(*types.Basic)
 	return ok && b.Info()&types.IsInteger != 0
+}
+
+var implCache = map[*core.Prog]map[string][]*ssa.Function{}
+
+// moduleImplementations resolves an interface method call to the methods of the
+// module's own named types that implement the interface (class-hierarchy
+// resolution restricted to the module; go/pointer is not available).
+func moduleImplementations(p *core.Prog, c *ssa.CallCommon) []*ssa.Function {
+	iface, ok := c.Value.Type().Underlying().(*types.Interface)
+	if !ok {
+		return nil
+	}
+	key := c.Value.Type().String() + "." + c.Method.Name()
+	if implCache[p] == nil {
+		implCache[p] = map[string][]*ssa.Function{}
+	}
+	if r, ok := implCache[p][key]; ok {
+		return r
+	}
+	var out []*ssa.Function
+	for path, sp := range p.SSAPkgs {
+		if !strings.HasPrefix(path, core.ModPath) {
+			continue
+		}
+		for _, mem := range sp.Members {
+			tn, ok := mem.(*ssa.Type)
+			if !ok {
+				continue
+			}
+			if _, isIface := tn.Type().Underlying().(*types.Interface); isIface {
+				continue
+			}
+			for _, t := range []types.Type{tn.Type(), types.NewPointer(tn.Type())} {
+				if !types.Implements(t, iface) {
+					continue
+				}
+				sel := p.SSA.MethodSets.MethodSet(t).Lookup(c.Method.Pkg(), c.Method.Name())
+				if sel == nil {
+					continue
+				}
+				if fn := p.SSA.MethodValue(sel); fn != nil {
+					out = append(out, fn)
+				}
+			}
+		}
+	}
+	sort.Slice(out, func(i, j int) bool { return out[i].String() < out[j].String() })
+	implCache[p][key] = out
+	return out
 }
